@@ -104,7 +104,7 @@ def run(ctx):
               "recorded random outputs and must reproduce the implementation's constraints exactly (pairs as sets, chunks "
               "and triplets exactly).  non-trivial = at least one constraint produced; distinct = distinct (labels, "
               "parameters, stream).")
-  ctx.trusted = ["Coq 8.16.1 kernel + vm_compute", "hand-written model Model/Constraints.v tied to the code by replaying the recorded random stream",
+  ctx.trusted = ["text pins tools/translate_pins.py (Constraints)", "Coq 8.16.1 kernel + vm_compute", "hand-written model Model/Constraints.v tied to the code by replaying the recorded random stream",
                  "oracle: numpy RandomState.randint/choice return values in range / members of their argument",
                  "oracle: scikit-learn NearestNeighbors (tables checked per run: right class, not the point itself; nearest-ness by brute force in the harness)",
                  "harness decodes the recorded stream (class bookkeeping for chunks, index frames for k-NN)"]
